@@ -15,6 +15,7 @@
 //                                 plus raw=<same|differs> n=<crates>+<tracks> answers=<h>
 //   tableapi.reads [prefix]    -> the same for the 2.x table API (on-disk 2.x libraries)
 //   tableapi.touch <n>         -> table-API setters on the columns the high-level API never writes (every track)
+//   tableapi.rmtrack           -> table-API removal of the member track with the largest id (memberships stay)
 //   staticops                  -> database_exists / load_database / create_or_load_database (existing library)
 //                                 / engine_library::exists as observers of the directory; the SHA-256 of the
 //                                 directory is taken around every single one
@@ -1080,6 +1081,27 @@ DJV_CMD(tableapi_touch, "tableapi.touch")
         ++touched;
     }
     return "tracks=" + std::to_string(touched);
+}
+
+// tableapi.rmtrack: through the table API of the on-disk 2.x library, remove the Track row of the member track
+// with the largest id (track_table::remove does not look at memberships: the PlaylistEntity rows naming the
+// track stay behind) - a state the public API reaches only by mixing its two levels.
+DJV_CMD(tableapi_rmtrack, "tableapi.rmtrack")
+{
+    if (S.dir.empty() || !is_v2()) throw bad_command{"needs an on-disk 2.x library"};
+    handles_guard hg;
+    quiet_guard q;
+    auto lib = ev2::engine_library::load(S.dir);
+    auto tt = lib.track();
+    auto pe = lib.playlist_entity();
+    auto pl = lib.playlist();
+    int64_t victim = 0;
+    for (auto list_id : pl.all_ids())
+        for (auto& row : pe.get_for_list(list_id))
+            if (row.track_id > victim && tt.exists(row.track_id)) victim = row.track_id;
+    if (victim == 0) return "none";
+    tt.remove(victim);
+    return "removed=" + std::to_string(victim);
 }
 
 DJV_CMD(tableapi_reads, "tableapi.reads")
